@@ -148,6 +148,12 @@ class Model(object):
                 raise ModelRefuse('illegal file name')
             if not self.rr and lvl < 4 and self.depth(path) > 7:
                 raise ModelRefuse('too deep')
+        # the identifier has to fit its directory record (255 bytes); with Rock Ridge the record must also hold the
+        # 28-byte CE entry that points at the continuation area (everything else can live there)
+        n = len(name.encode('utf-8'))
+        room = 33 + n + (1 if n % 2 == 0 else 0) + (14 if self.cfg.get('xa') else 0) + (28 if self.rr else 0)
+        if room > (254 if self.rr else 255):
+            raise ModelRefuse('identifier does not fit its record')
         if self.rr:
             if not rr_name or '/' in rr_name:
                 raise ModelRefuse('rr name required')
